@@ -15,7 +15,8 @@
 //
 // stdin : JSON [{"mock":"p0.MoqI0","ops":[{"op":"set","m":"B","beh":"const","res":[1,0],"nested":[{"op":"calls","m":"B"}]},
 //               {"op":"call","m":"B","fixed":[1,2],"var":"none|elems|spread","elems":[..],"nilslice":bool},
-//               {"op":"calls","m":"B"},{"op":"resetm","m":"B"},{"op":"resetall"}]}]
+//               {"op":"calls","m":"B","keep":1},{"op":"recheck","keep":1},{"op":"resetm","m":"B"},{"op":"resetall"}]}]
+// "keep": the slice returned by <M>Calls() is kept as it is (not copied); "recheck" reports what it holds NOW.
 // stdout: JSON [[{"k":"unit"},{"k":"ret","res":[..],"inv":[{"m":"B","args":[..]}]},{"k":"panic","msg":".."},
 //               {"k":"panicuser","inv":[..]},{"k":"records","l":[[{"f":"S","v":1},..],..]},{"k":"nomethod"}],..]
 package main
@@ -225,6 +226,7 @@ type Op struct {
 	Elems    []int  `json:"elems"`
 	NilSlice bool   `json:"nilslice"`
 	Nested   []Op   `json:"nested"` // "set": operations the installed function performs on the mock while running
+	Keep     int    `json:"keep"`   // "calls": keep the returned slice under this id (> 0); "recheck": the id to look at again
 	First    bool   `json:"first"`  // "set": ... but only when <M>Calls() read by the function holds just the running call
 }
 type Job struct {
@@ -294,6 +296,33 @@ func runTop(mock reflect.Value, op Op) Out {
 		deadlocks++
 		return Out{K: "deadlock"} // first-stage verdict only: harness/checks/c04.py confirms it in a process of its own
 	}
+}
+
+type keptSlice struct {
+	recs     reflect.Value
+	variadic bool
+}
+
+// results of <M>Calls() kept by the test of the current job, by id
+var kept = map[int]keptSlice{}
+
+func recordsOut(recs reflect.Value, variadic bool) Out {
+	o := Out{K: "records", L: [][]Fld{}}
+	for i := 0; i < recs.Len(); i++ {
+		r := recs.Index(i)
+		fl := []Fld{}
+		for j := 0; j < r.NumField(); j++ {
+			var v any
+			if variadic && j == r.NumField()-1 {
+				v = decSlice(r.Field(j))
+			} else {
+				v = dec(r.Field(j))
+			}
+			fl = append(fl, Fld{F: r.Type().Field(j).Name, V: v})
+		}
+		o.L = append(o.L, fl)
+	}
+	return o
 }
 
 func runOp(mock reflect.Value, op Op, depth int) (out Out) {
@@ -420,22 +449,17 @@ func runOp(mock reflect.Value, op Op, depth int) (out Out) {
 			return Out{K: "nomethod"}
 		}
 		recs := mv.Call(nil)[0]
-		o := Out{K: "records", L: [][]Fld{}}
-		for i := 0; i < recs.Len(); i++ {
-			r := recs.Index(i)
-			fl := []Fld{}
-			for j := 0; j < r.NumField(); j++ {
-				var v any
-				if fv.Type().IsVariadic() && j == r.NumField()-1 {
-					v = decSlice(r.Field(j))
-				} else {
-					v = dec(r.Field(j))
-				}
-				fl = append(fl, Fld{F: r.Type().Field(j).Name, V: v})
-			}
-			o.L = append(o.L, fl)
+		if op.Keep > 0 {
+			// the test keeps the returned slice ITSELF (no copy) and looks at it again later ("recheck")
+			kept[op.Keep] = keptSlice{recs, fv.Type().IsVariadic()}
 		}
-		return o
+		return recordsOut(recs, fv.Type().IsVariadic())
+	case "recheck":
+		k, ok := kept[op.Keep]
+		if !ok {
+			return Out{K: "nomethod"}
+		}
+		return recordsOut(k.recs, k.variadic)
 	case "resetm", "resetall":
 		name := "ResetCalls"
 		if op.Op == "resetm" {
@@ -468,6 +492,7 @@ func main() {
 			os.Exit(2)
 		}
 		mock := reflect.ValueOf(mk())
+		kept = map[int]keptSlice{}
 		outs := make([]Out, 0, len(j.Ops))
 		dead := false
 		for _, op := range j.Ops {
